@@ -154,6 +154,10 @@ MLLeave(x) ==
   /\ x \in mlUp
   /\ Apply(HNodeLeave(R, x), [a |-> "mlleave", x |-> x], mlUp \ {x})
 
+MLUpdate(x) ==       \* memberlist only reports updates for nodes it lists alive
+  /\ x \in mlUp
+  /\ Apply(HNodeUpdate(R, x), [a |-> "mlupdate", x |-> x], mlUp)
+
 NetMsg(ty, x, lt, prune) ==
   LET h == IF ty = 1 THEN HJoinIntent(R, x, lt) ELSE HLeaveIntent(R, x, lt, prune)
       \* NotifyMsg queues the message again when the handler says so
@@ -204,7 +208,7 @@ Init == /\ R = NewReplica(Self) /\ mlUp = {}
 
 Next ==
   /\ steps < MaxSteps
-  /\ \/ \E x \in Foreign : MLJoin(x) \/ MLLeave(x)
+  /\ \/ \E x \in Foreign : MLJoin(x) \/ MLLeave(x) \/ MLUpdate(x)
      \/ \E ty \in {1, 2}, x \in Names, lt \in 0..MaxLT, prune \in {0, 1} : (ty = 1 => prune = 0) /\ NetMsg(ty, x, lt, prune)
      \/ \E pp \in PPs : NetMerge(pp)
      \/ \E x \in Names, prune \in {0, 1} : ApiForceLeave(x, prune)
